@@ -20,15 +20,17 @@ type c11Op struct {
 	NetFn, Cmd byte
 	Group      bool
 	OEM        bool
+	NoRsp      bool // the command has no response layer (only the completion code comes back)
 }
 
 // the first ten are the pair universe of the statement; the rest add pairs
 // inside the group-extension (DCMI) and OEM NetFn classes, where only the
 // command number distinguishes the responses
 var c11Ops = []c11Op{
-	{"guid", 6, 0x37, false, false}, {"devid", 6, 0x01, false, false}, {"authcaps", 6, 0x38, false, false}, {"chassisstatus", 0, 0x01, false, false}, {"repoinfo", 0x0a, 0x20, false, false},
-	{"reserve", 0x0a, 0x22, false, false}, {"sensorreading", 4, 0x2d, false, false}, {"sessioninfo", 6, 0x3d, false, false}, {"getsdr", 0x0a, 0x23, false, false}, {"power", 0x2c, 0x02, true, false},
-	{"dcmicap", 0x2c, 0x01, true, false}, {"dcmisensorinfo", 0x2c, 0x07, true, false}, {"oem-a", 0x2e, 0x10, false, true}, {"oem-b", 0x2e, 0x11, false, true},
+	{"guid", 6, 0x37, false, false, false}, {"devid", 6, 0x01, false, false, false}, {"authcaps", 6, 0x38, false, false, false}, {"chassisstatus", 0, 0x01, false, false, false}, {"repoinfo", 0x0a, 0x20, false, false, false},
+	{"reserve", 0x0a, 0x22, false, false, false}, {"sensorreading", 4, 0x2d, false, false, false}, {"sessioninfo", 6, 0x3d, false, false, false}, {"getsdr", 0x0a, 0x23, false, false, false}, {"power", 0x2c, 0x02, true, false, false},
+	{"dcmicap", 0x2c, 0x01, true, false, false}, {"dcmisensorinfo", 0x2c, 0x07, true, false, false}, {"oem-a", 0x2e, 0x10, false, true, false}, {"oem-b", 0x2e, 0x11, false, true, false},
+	{"chassiscontrol", 0, 0x02, false, false, true}, {"closeother", 6, 0x3c, false, false, true},
 }
 
 var c11Enterprise = []byte{0x57, 0x01, 0x00}
@@ -50,7 +52,7 @@ type c11Batch struct {
 	UDP       int
 }
 
-var c11Patterns = []string{"stray-only", "stray-then-right", "stale-previous", "unsolicited-twice", "reordered"}
+var c11Patterns = []string{"stray-only", "stray-then-right", "stale-previous", "unsolicited-twice", "reordered", "busy-stray-giveup"}
 
 func init() {
 	register(&Check{
@@ -63,16 +65,16 @@ func init() {
 		Exhaustive:  func(string) bool { return true },
 		Gen: func(tier string, seed int64) []ev.Case {
 			var cs []ev.Case
-			for f := 0; f < 14*14; f += 14 {
-				cs = append(cs, ev.MkCase("batch", c11Batch{InSession: true, From: f, To: f + 14, Seed: seed}))
+			for f := 0; f < 16*16; f += 16 {
+				cs = append(cs, ev.MkCase("batch", c11Batch{InSession: true, From: f, To: f + 16, Seed: seed}))
 			}
-			cs = append(cs, ev.MkCase("batch", c11Batch{InSession: false, From: 0, To: 14 * 14, Seed: seed}))
+			cs = append(cs, ev.MkCase("batch", c11Batch{InSession: false, From: 0, To: 16 * 16, Seed: seed}))
 			nu := 6
 			if tier == "thorough" {
 				nu = 60
 				for k := 1; k < 30; k++ {
-					for f := 0; f < 14*14; f += 14 {
-						cs = append(cs, ev.MkCase("batch", c11Batch{InSession: true, From: f, To: f + 14, Seed: seed + int64(k)*997}))
+					for f := 0; f < 16*16; f += 16 {
+						cs = append(cs, ev.MkCase("batch", c11Batch{InSession: true, From: f, To: f + 16, Seed: seed + int64(k)*997}))
 					}
 				}
 			}
@@ -104,11 +106,11 @@ func c11Exec(run *ev.Run, c ev.Case) {
 			return
 		}
 		for idx := b.From; idx < b.To; idx++ {
-			a, bb := idx/14, idx%14
+			a, bb := idx/16, idx%16
 			if a == bb {
 				continue
 			}
-			sessionlessOK := func(i int) bool { return i <= 2 || i >= 10 } // guid, devid, authcaps, DCMI capabilities and OEM commands
+			sessionlessOK := func(i int) bool { return i <= 2 || (i >= 10 && i != 15) } // guid, devid, authcaps, DCMI capabilities and OEM commands
 			if !b.InSession && (!sessionlessOK(a) || !sessionlessOK(bb)) {
 				continue
 			}
@@ -149,10 +151,20 @@ func c11Run(run *ev.Run, o c11One) {
 	tag := byte(0)
 	// the BMC answers every command with a body derived from a running tag
 	sentBody := map[int][]byte{}
+	sentCode := map[int]byte{}
 	e.BMC.Handler = func(evn *refbmc.Event) (byte, []byte, bool) {
 		for _, op := range c11Ops {
 			if op.NetFn == evn.NetFn && op.Cmd == evn.Cmd {
 				tag++
+				if op.NoRsp {
+					code := []byte{0x00, 0xd4, 0xcc}[int(tag)%3]
+					if op.Cmd == 0x3c {
+						code = []byte{0x87, 0xd4, 0xcc}[int(tag)%3] // a successful Close Session would end the session
+					}
+					sentCode[evn.N] = code
+					sentBody[evn.N] = nil
+					return code, nil, true
+				}
 				body := c11Body(op, tag)
 				sentBody[evn.N] = body
 				return 0, body, true
@@ -188,6 +200,9 @@ func c11Run(run *ev.Run, o c11One) {
 		if op.OEM {
 			cmd.Op.Enterprise = 0x000157
 			cmd.Req = []byte{9}
+		}
+		if op.NoRsp {
+			cmd.NoRsp, cmd.NoReq, cmd.Req = true, false, []byte{0x42, 0, 0, 0}
 		}
 		ctx, cancel := e.LimitCtx(maxSends)
 		defer cancel()
@@ -225,12 +240,14 @@ func c11Run(run *ev.Run, o c11One) {
 		}
 	}
 	var rightBody []byte
+	rightCode := byte(0)
 	e.Filter = func(n int, req, reply []byte) ([]byte, error) {
 		attempt++
 		last := e.BMC.Last()
 		if last != nil {
 			if b, ok := sentBody[last.N]; ok {
 				rightBody = b
+				rightCode = sentCode[last.N]
 			}
 		}
 		switch o.Pattern {
@@ -252,6 +269,20 @@ func c11Run(run *ev.Run, o c11One) {
 				strays++
 				return wrap(strayMsg(last)), nil
 			}
+		case "busy-stray-giveup":
+			// node busy for the command itself, then a stray, then the caller's context ends
+			if attempt == 1 {
+				pre := []byte(nil)
+				if opB.Group {
+					pre = []byte{0xdc}
+				}
+				if opB.OEM {
+					pre = c11Enterprise
+				}
+				return wrap(refbmc.RespMsg(last, 0xc0, pre)), nil
+			}
+			strays++
+			return wrap(strayMsg(last)), nil
 		case "reordered":
 			// B's own reply is held back and A's arrives first; B's arrives on the retry
 			if attempt == 1 {
@@ -262,6 +293,9 @@ func c11Run(run *ev.Run, o c11One) {
 		return reply, nil
 	}
 	maxSends := 4
+	if o.Pattern == "busy-stray-giveup" {
+		maxSends = 2
+	}
 	code, got, err, pv, st := send(opB, maxSends)
 	e.Filter = nil
 	desc := fmt.Sprintf("stray reply (code %#x) to %s (NetFn %#x cmd %#x) during %s (NetFn %#x cmd %#x), pattern %s, in-session %v", o.StrayCode, opA.Name, opA.NetFn+1, opA.Cmd, opB.Name, opB.NetFn, opB.Cmd, o.Pattern, o.InSession)
@@ -281,29 +315,30 @@ func c11Run(run *ev.Run, o c11One) {
 		wantBody = wantBody[3:]
 	}
 	if err == nil {
-		if o.Pattern == "stray-only" {
+		if o.Pattern == "stray-only" || o.Pattern == "busy-stray-giveup" {
 			run.Violation("C11:stray-accepted", fmt.Sprintf("%s: call succeeded (code %v, body %x) although only responses to another command were delivered", desc, code, got), cs, nil)
 			return
 		}
-		if code != 0 || !bytes.Equal(got, wantBody) {
-			run.Violation("C11:stray-accepted", fmt.Sprintf("%s: returned code %v body %x, the command's own response body was %x", desc, code, got, wantBody), cs, nil)
+		if byte(code) != rightCode || !bytes.Equal(got, wantBody) {
+			run.Violation("C11:stray-accepted", fmt.Sprintf("%s: returned code %v body %x, the command's own response was code %#x body %x", desc, code, got, rightCode, wantBody), cs, nil)
 			return
 		}
 	}
 	// re-synchronisation
 	for k := 0; k < o.Follow; k++ {
 		op := c11Ops[(o.B+k+1)%len(c11Ops)]
-		if op.OEM && !o.InSession {
+		if (op.OEM || op.NoRsp) && !o.InSession {
 			op = c11Ops[0]
 		}
 		if !o.InSession {
 			op = c11Ops[[]int{0, 2}[k%2]]
 		}
-		rightBody = nil
+		rightBody, rightCode = nil, 0
 		e.Filter = func(n int, req, reply []byte) ([]byte, error) {
 			if last := e.BMC.Last(); last != nil {
 				if b, ok := sentBody[last.N]; ok {
 					rightBody = b
+					rightCode = sentCode[last.N]
 				}
 			}
 			return reply, nil
@@ -320,7 +355,7 @@ func c11Run(run *ev.Run, o c11One) {
 		if op.OEM && len(want) >= 3 {
 			want = want[3:]
 		}
-		if err != nil || code != 0 || !bytes.Equal(got, want) {
+		if err != nil || byte(code) != rightCode || !bytes.Equal(got, want) {
 			run.Violation("C11:desynchronised", fmt.Sprintf("%s: follow-up command %d (%s) returned code %v err %v body %x, its own response was %x", desc, k, op.Name, code, err, got, want), cs, nil)
 			return
 		}
